@@ -494,8 +494,10 @@ UpdateNSTBalance(st, a) ==
         IF acc.err # "" THEN acc ELSE
         LET d == acc.st.del[<<a.s, a.a, o>>] IN
         IF ~d.ex THEN acc ELSE
-        LET ssh == DecMul(d.sh, prop, PREC)
-            rs  == RemoveShare(acc.st, FALSE, o, a.s, a.a, ssh) IN
+        LET ssh == DecMul(d.sh, prop, PREC) IN
+        \* since the fix "native-restaking balance decrease skips delegations without shares"
+        IF ~NIsPos(ssh) THEN acc ELSE
+        LET rs  == RemoveShare(acc.st, FALSE, o, a.s, a.a, ssh) IN
         IF rs.err # "" THEN [st |-> rs.st, err |-> rs.err] ELSE
         LET u == UpdStk(rs.st, a.s, a.a, NNeg(rs.token), 0, 0) IN
         [st |-> u.st, err |-> u.err]
@@ -596,7 +598,8 @@ Goals(pre, ev, a, r) ==
          G(ok /\ NIsNeg(a.d) /\ NGt(want, row.wd) /\ NLe(want, NAdd(row.wd, pendTot)) /\ recsOf # {}, "nst_down_ends_inside_pending_records") \cup
          G(ok /\ NIsNeg(a.d) /\ NGt(want, NAdd(row.wd, pendTot)) /\ \E o \in OPERATORS : NIsPos(pre.del[<<a.s, a.a, o>>].sh), "nst_down_reaches_shares") \cup
          G(NIsNeg(a.d) /\ NGt(want, NAdd(row.wd, pendTot)) /\ Cardinality({o \in OPERATORS : NIsPos(pre.del[<<a.s, a.a, o>>].sh)}) >= 2, "nst_down_shares_two_operators") \cup
-         G(~ok /\ r.err = "ErrAmountIsNotPositive", "nst_down_zero_share_row_error")
+         G(ok /\ NIsNeg(a.d) /\ NGt(want, NAdd(row.wd, pendTot)) /\ (\E o \in OPERATORS : NIsPos(pre.del[<<a.s, a.a, o>>].sh))
+              /\ \E o \in OPERATORS : pre.del[<<a.s, a.a, o>>].ex /\ NIsZero(pre.del[<<a.s, a.a, o>>].sh), "nst_down_skips_zero_share_row")
     [] OTHER -> {}
 
 AllGoals ==
@@ -612,7 +615,7 @@ AllGoals ==
    "slash_spares_older_record", "slash_multi_asset", "slash_pool_fully_unbonding_other_bonded",
    "slash_infraction_at_current_height", "slash_replay", "slash_factor_above_one", "slash_zero_value_operator",
    "nst_up", "nst_down_within_withdrawable", "nst_down_ends_inside_pending_records", "nst_down_reaches_shares",
-   "nst_down_shares_two_operators", "nst_down_zero_share_row_error"}
+   "nst_down_shares_two_operators", "nst_down_skips_zero_share_row"}
 
 (***************************************************************************)
 (* Properties (state predicates over a store and the ghosts G; the bounded  *)
